@@ -13,7 +13,10 @@ ID = "C10"
 LEAN_MODULE = "Ctrmml.Properties.C10"
 THEOREMS = ["C10_unique_data_spec", "C10_seq_bytes_unchanged", "C10_relocation_sound", "C10_song_numbering",
             "C10_unique_string_terminates", "C10_identifiers_unique_valid", "C10_linker_idempotent_query",
-            "C10_pcm_region_sound_partial", "C10_offset_window_regression"]
+            "C10_pcm_region_sound_partial", "C10_offset_window_regression",
+            "C10_pcm_histories", "C10_pcm_later_songs_keep", "C10_reader_agreement", "C10_stored_once", "C10_song_resolves_partial", "C10_group_key_agrees",
+            "C10_resolver_songs_partial", "C10_full_bank_partial", "C10_full_bank_fresh_partial",
+            "C10_full_headers_partial", "C10_full_partial"]
 LEVEL = "proof"
 STREAM = "link.out"
 CHUNK = 20
@@ -23,7 +26,9 @@ RULE = ("histories of add_song/get_seq_data on a fresh MDSDRV_Linker: 1..6 MDS f
         "data; PCM on generated 8/16-bit WAVs incl. rate/offset overrides and samples larger than a 32 KiB bank; MML text inputs), "
         "hand-assembled MDS files (shared/duplicate/prefix/empty data entries, shared and overlapping PCM windows, flagged ids), "
         "equal and clashing file and group names (case, blanks, punctuation, non-ASCII, leading digits, MIN/MAX, suffix clashes), every "
-        "order of <= 3 songs over a 4-song base set, intermediate queries, pitch-code boundaries, and truncated / corrupted files. "
+        "order of <= 3 songs over a 4-song base set, intermediate queries, pitch-code boundaries, a PCM placement family (samples built "
+        "from one pattern: prefixes, zero tails, all-zero samples, repeats at other rates / loop starts, fillers ending around a 32 KiB "
+        "bank boundary or larger than a bank, alignment gaps refilled later), and truncated / corrupted files. "
         "non-trivial = more than one plain song; distinct by request text")
 EXPLANATION = ("theorems over Model/Linker + Spec/Link for all histories; the model is tied to mdsdrv.cpp by running both on the generated "
                "histories and diffing every answer byte (sequence bank, PCM bank, both headers, statistics, per-op results); the spec "
@@ -33,17 +38,25 @@ ASSUMPTIONS = ["linked banks below 2 GiB (int offset in get_seq_data), MDS files
                "\"C\" locale character classes; bytes >= 0x80 in names are dropped (glibc tables)",
                "binary32 rounding of rate/2187.5 never crosses a rounding boundary for integer rates (checked on every boundary rate)"]
 TRUSTED = ["Spec/Link.lean (MDS reader, bank resolver, group symbol and order, header reader)"]
-TECHNIQUE = "Lean 4 proof (invariants over linker histories, layout lemmas, fuel bound for unique_string) + differential correspondence model<->mdsdrv.cpp + spec resolver on the real output"
-LEVEL_TEXT = ("Machine-checked theorems over a Lean model of MDSDRV_Linker: add_unique_data stores identical data once and never merges "
-              "different data, earlier indices stay; in the linked bank every song is found through the table at an even offset with its "
-              "bytes unchanged outside its pointer slots, every slot holds (flag bit kept) the offset of a bank entry byte-identical to what "
-              "the song carried; songs are numbered from 1 in group-key order then input order and header counts match; unique_string "
-              "terminates and the generated identifiers are pairwise distinct valid symbols with MIN/MAX bracketing each group; "
-              "get_seq_data is a function of the songs added (queries leave no trace). The PCM-region theorem (any start offset, since the "
-              "repair of D11) is a single re-homing step on C14's allocator invariant; its composition over whole histories is not proved.")
+TECHNIQUE = "Lean 4 proof (invariant over linker histories by induction on the operation list, refinement of the chunk walk to the spec reader, layout lemmas, fuel bound for unique_string) + differential correspondence model<->mdsdrv.cpp + spec resolver on the real output"
+LEVEL_TEXT = ("Machine-checked theorems over a Lean model of MDSDRV_Linker, for all inputs. The main one (C10_full_partial): for EVERY list "
+              "of MDS files the spec's own reader accepts that MDSDRV_Linker links without error, the spec's executable resolver - the "
+              "same LinkSpec.resolveBank / resolveHeaders the judge runs on the real output - accepts the linked sequence bank, the PCM "
+              "bank and both generated headers: bank header fields; every song through the table in group then input order with its "
+              "bytes unchanged outside the pointer slots; every slot's pointer word with its flag bit addressing a byte-identical data "
+              "entry or a PCM header with the rate's pitch code and the sample's size whose address selects exactly the sample's bytes "
+              "in the PCM bank; non-overlapping song spans; identical data stored once, different data never merged; one valid unique "
+              "identifier per song with MIN/MAX bracketing each group. Its only extra hypotheses are the two limits of the format: bank "
+              "below 4 GiB, fewer than 65536 songs (32-bit offsets / 16-bit counts). Supporting theorems, each for all "
+              "histories: the PCM/data invariant over arbitrary add_song histories on top of C14's allocator invariant (later songs never "
+              "disturb earlier ones, bank rule), agreement of the linker's chunk walk with the spec reader, add_song = fold over exactly "
+              "the entries read, group key = spec group symbol and map order = spec order, layout / relocation / stored-once / numbering "
+              "/ identifier theorems, termination of unique_string, query independence.")
 LEVEL_NOTE = ("Trusted: Lean kernel; Model/Linker.lean (+ Model/Riff, Model/Wave), tied to mdsdrv.cpp by differential testing only; "
-              "Spec/Link.lean; the converter is not modelled here (its real output is the input). See Properties/C10.lean for the "
-              "exact hypotheses of each theorem.")
+              "Spec/Link.lean (the resolver and reader the theorem is stated against); the converter is not modelled here (its real "
+              "output is the input). Decided per case by the oracle and not by proof: files the strict spec reader rejects but the "
+              "linker accepts are covered by the history theorems (C10_pcm_histories) but not by the resolver theorem. See "
+              "Properties/C10.lean for the exact hypotheses of each theorem.")
 
 EXPECT = {}   # stage-2 request -> 'direct=' answer of stage 1
 
@@ -162,6 +175,61 @@ def raw_song(rng, grp=None, nslots=None, pcm_ok=True, d11=False):
             entries.append((b"glob", i | flag, d))
     g = rng.choice([b"", b"", b"bgm", b"BGM", b"sfx", b"se 1", b"1up", b"a-b", b"\xc3\xa9", b"A_B", b"a"]) if grp is None else grp
     return mds(grp=g, seq=seq, dblk=entries, pcmd=pcmd), tags
+
+
+# ------------------------------------------------------------------ PCM placement family
+BANK = 32768   # MDSDRV_Linker::wave_rom(0x3f8000, 0x8000)
+
+
+def pcm_family(rng, big=False):
+    """2..4 songs whose samples are built from one base pattern: prefixes of it, the pattern with a zero tail (must not be
+    matched against unallocated rom behind a stored copy), all-zero samples, repeats at other rates / loop starts, fresh data;
+    `big`: a filler that ends just before / at / after a 32 KiB bank boundary or is larger than a bank, so that the following
+    samples are moved to the next bank or to the next multiple of 32 and leave alignment gaps that later small samples fill.
+    returns (songs [(name, mds)], tags)"""
+    base = fill(rng.choice([24, 40, 64, 96, 200]), rng.randrange(256))
+    pool, tags = [], set(["pcm", "pcm-family"])
+
+    def shape():
+        k, n = rng.random(), rng.randrange(1, len(base) + 1)
+        if k < .2: return base[:n], "pcm-prefix"
+        if k < .45: return base[:n] + b"\0" * rng.choice([1, 2, 7, 31, 32, 33, 64]), "pcm-zero-tail"
+        if k < .55: return base + bytes([rng.randrange(1, 256)]) * rng.randrange(1, 5), "pcm-extended"
+        if k < .65: return b"\0" * rng.choice([1, 5, 32, 64]), "pcm-all-zero"
+        if k < .72: return base[n // 2:], "pcm-suffix"
+        if k < .87 and pool: return rng.choice(pool), "pcm-repeat"
+        return fill(rng.choice([3, 17, 32, 33, 100]), rng.randrange(256)), "pcm-fresh"
+
+    songs = []
+    ns = rng.randrange(2, 5)
+    for si in range(ns):
+        datas = []
+        if big and si == 0:
+            kind = rng.choice(["before", "at", "after", "over"])
+            size = {"before": BANK - rng.choice([1, 5, 31, 33, 100]), "at": BANK, "after": BANK + rng.choice([1, 32, 100]),
+                    "over": rng.choice([40000, 65536 - 7, 70001])}[kind]
+            datas.append(fill(size, rng.randrange(256)))
+            tags.add("pcm-bank-boundary")
+            if rng.random() < .5:
+                datas.insert(0, fill(rng.choice([1, 7, 33]), rng.randrange(256)))   # the filler does not start on a multiple of 32
+                tags.add("pcm-align-gap")
+        for _ in range(rng.randrange(1, 4)):
+            d, t = shape()
+            datas.append(d)
+            pool.append(d)
+            tags.add(t)
+        if not big:
+            rng.shuffle(datas)
+        nsl = len(datas)
+        seq = struct.pack(">H", 2) + bytes(rng.randrange(256) for _ in range(2 * nsl + rng.choice([0, 1, 3])))
+        pcmd, entries = b"", []
+        for i, d in enumerate(datas):
+            if rng.random() < .3:
+                pcmd += b"\xaa" * rng.randrange(1, 4)
+            entries.append((b"pcmh", i, sample(len(pcmd), 0, len(d), rate=rng.choice([8000, 8000, 17500, 4000]), ls=rng.choice([0, 0, 0, 3]))))
+            pcmd += d
+        songs.append(("p%d" % si, mds(grp=rng.choice([b"", b"", b"sfx"]), seq=seq, dblk=entries, pcmd=pcmd)))
+    return songs, tags
 
 
 # ------------------------------------------------------------------ stage-1 song descriptions
@@ -357,6 +425,14 @@ def stage1(reqs):
 
 
 def cases(rng, tier):
+    """VERIF_C10_FAMILY=<family> restricts the run to one case family (used to see which family catches a seeded change)"""
+    only = os.environ.get("VERIF_C10_FAMILY")
+    for c in all_cases(rng, tier):
+        if not only or c.family == only:
+            yield c
+
+
+def all_cases(rng, tier):
     quick = tier == "quick"
     EXPECT.clear()
     for req, tags in corpus():
@@ -457,6 +533,12 @@ def cases(rng, tier):
         if q:
             tags.add("query")
         yield Case(link_req(songs, q), sorted(tags), "raw")
+
+    # ---- PCM placement family: shared prefixes, zero tails, all-zero samples, alignment gaps, bank boundaries
+    for k in range(45 if quick else 500):
+        songs, tags = pcm_family(rng, big=(k % 9 == 8))
+        q = [rng.randrange(0, len(songs) + 1)] if rng.random() < .3 else []
+        yield Case(link_req(songs, q), sorted(tags | {"raw", "songs-%d" % len(songs)} | ({"query"} if q else set())), "pcm-family")
 
     # ---- many data entries: the 32 KiB data bank limit
     for k in range(1 if quick else 4):
